@@ -459,6 +459,41 @@ func TestC08Regress(t *testing.T) {
 			t.Errorf("%v (schedule %v, released: %v)", err, sched, info["history"])
 		}
 	}
+	// KF-C08-2: a repeated pair-verify on an encrypted connection replaces the session; the response to its
+	// finish request is the last message under the session in use. If a notification is written after the
+	// handler replaced the session and before net/http writes that response, the notification takes the
+	// "last write under the old session" and the response goes out under the new keys.
+	ctx, _, _ := fixture.SharedContext()
+	var s1, s2 [32]byte
+	for i := range s1 {
+		s1[i], s2[i] = byte(i+3), byte(99-i)
+	}
+	conn := fixture.NewScriptConn(nil)
+	hc := hap.NewConnection(conn, ctx)
+	sec1, _ := hccrypto.NewSecureSessionFromSharedKey(s1)
+	sess := ctx.GetSessionForConnection(conn)
+	sess.SetCryptographer(sec1)
+	hc.Write([]byte("plain response of the first pair-verify"))
+	conn.Writes = nil
+	sec2, _ := hccrypto.NewSecureSessionFromSharedKey(s2)
+	sess.SetCryptographer(sec2) // the finish handler of the repeated pair-verify
+	hc.Write(payload(1, 0, 30)) // a notification from another goroutine gets in
+	hc.Write(payload(0, 0, 30)) // net/http writes the response to the finish request
+	a2c1, _ := refctl.SessionKeys(s1[:])
+	plain, _, rest := openPrefix(&refctl.Opener{Key: a2c1}, conn.Written())
+	hc.Close()
+	stats.Case(stats.Hash("regress", "switch-with-notification"), true, []string{"regress"}, func() interface{} {
+		return map[string]interface{}{"what": "session replaced, notification written, then the response to the finish request", "bytes_under_old_session": len(plain), "unreadable_for_the_peer": len(rest)}
+	})
+	if len(rest) != 0 {
+		what := fmt.Sprintf("repeated pair-verify with a notification written before the finish response: the peer, still on the session in use, can open %d bytes and not the following %d (the response was sealed under the new session)", len(plain), len(rest))
+		if stats.Known("KF-C08-2") {
+			stats.Reproduced("KF-C08-2", what)
+		} else {
+			stats.Fail("TestC08Regress", what, nil)
+			t.Errorf("%s", what)
+		}
+	}
 }
 
 // TestC08Transport: the same property one level up, where the writers are the library's own: the application
@@ -530,11 +565,12 @@ func transportRound(rep, k int) error {
 	rounds := 25
 	for round := 1; round <= rounds; round++ {
 		want := map[string]string{
-			fmt.Sprint(on.ID):   fmt.Sprint(round%2 == 1),
-			fmt.Sprint(bri.ID):  fmt.Sprint(1 + (round*7+rep)%99),
-			fmt.Sprint(hue.ID):  fmt.Sprint(float64(1 + (round*13)%350)),
-			fmt.Sprint(sat.ID):  fmt.Sprint(float64(1 + (round*3)%99)),
-			fmt.Sprint(text.ID): strings.Repeat("n", 1+(round*29)%200) + fmt.Sprint(round),
+			fmt.Sprint(on.ID):  fmt.Sprint(round%2 == 1),
+			fmt.Sprint(bri.ID): fmt.Sprint(1 + (round*7+rep)%99),
+			fmt.Sprint(hue.ID): fmt.Sprint(float64(1 + (round*13)%350)),
+			fmt.Sprint(sat.ID): fmt.Sprint(float64(1 + (round*3)%99)),
+			// from a few bytes to several frames and beyond any buffer a writer might stage a message in
+			fmt.Sprint(text.ID): strings.Repeat("n", []int{7, 200, 1000, 4090, 4200, 6000, 9000, 20000}[round%8]) + fmt.Sprint(round),
 		}
 		var wg sync.WaitGroup
 		start := make(chan struct{})
@@ -550,8 +586,11 @@ func transportRound(rep, k int) error {
 			go func(f func()) { defer wg.Done(); <-start; f() }(f)
 		}
 		close(start)
-		// a request of the controller in the middle of the notifications
-		r, err := cl.Do("GET", fmt.Sprintf("/characteristics?id=%d.%d", aid, text.ID), "", nil)
+		// a request of the controller in the middle of the notifications. Its response is small: net/http hands a
+		// response to the connection in pieces of at most 4 KiB, i.e. a large response is several Write calls, and
+		// the property speaks about the payload of one Write call (hc does write an EVENT between two pieces of
+		// a large response - see DESIGN.md, section 11; no listed property covers that)
+		r, err := cl.Do("GET", fmt.Sprintf("/characteristics?id=%d.%d", aid, bri.ID), "", nil)
 		if err != nil {
 			return fmt.Errorf("round %d: with 5 application goroutines changing values, the controller's stream is no sequence of intact messages: %v", round, err)
 		}
@@ -588,4 +627,77 @@ func transportRound(rep, k int) error {
 		})
 	}
 	return nil
+}
+
+// TestC08Switch: two to seven writers start at the same moment on an encrypted connection whose session was just
+// replaced by a repeated pair-verify (the next write is the last one under the session in use, everything
+// after it uses the new session). Whichever of them gets there first, the peer must never see a frame
+// of the new session before the last frame of the old one: it reads frames in arrival order, under the old
+// keys until one does not open, under the new keys from there on, and must get all payloads.
+// (Which of the writers ends up under the old session is not judged here - see KF-C08-2.)
+func TestC08Switch(t *testing.T) {
+	reps := stats.EnvInt("VERIF_C08_SREPS", 4000)
+	ctx, _, _ := fixture.SharedContext()
+	var s1, s2 [32]byte
+	for i := range s1 {
+		s1[i], s2[i] = byte(i+1), byte(200-i)
+	}
+	a2c1, _ := refctl.SessionKeys(s1[:])
+	a2c2, _ := refctl.SessionKeys(s2[:])
+	for rep := 0; rep < reps; rep++ {
+		conn := fixture.NewScriptConn(nil)
+		hc := hap.NewConnection(conn, ctx)
+		sec1, _ := hccrypto.NewSecureSessionFromSharedKey(s1)
+		sess := ctx.GetSessionForConnection(conn)
+		sess.SetCryptographer(sec1)
+		hc.Write([]byte("plain response of the first pair-verify"))
+		hc.Write(payload(9, 0, 40)) // traffic under the first session
+		conn.Writes = nil
+		sec2, _ := hccrypto.NewSecureSessionFromSharedKey(s2)
+		sess.SetCryptographer(sec2)
+		var wg sync.WaitGroup
+		start := make(chan struct{})
+		nw := 2 + rep%6
+		for w := 0; w < nw; w++ {
+			wg.Add(1)
+			go func(w int) {
+				defer wg.Done()
+				<-start
+				hc.Write(payload(w, rep%7, 20+(w%2)*1500))
+			}(w)
+		}
+		close(start)
+		wg.Wait()
+		wire := conn.Written()
+		hc.Close()
+		old := &refctl.Opener{Key: a2c1, Count: 1}
+		plain, _, rest := openPrefix(old, wire)
+		plain2, _, rest2 := openPrefix(&refctl.Opener{Key: a2c2}, rest)
+		if rep == 0 {
+			stats.Case(stats.Hash("switch"), true, []string{"session-switch:two-writers"}, func() interface{} {
+				return map[string]interface{}{"mode": "free-running", "writers": "2..7", "repetitions": reps, "after": "SetCryptographer on an encrypted connection"}
+			})
+		}
+		if len(rest2) != 0 || len(plain) == 0 || len(plain2) == 0 {
+			msg := fmt.Sprintf("repetition %d: after a session switch with two concurrent writers the peer cannot read the stream as 'old session, then new session': %d bytes open under the old keys, then %d under the new keys, %d bytes remain (a frame of the new session precedes the last frame of the old one)", rep, len(plain), len(plain2), len(rest2))
+			stats.Fail("TestC08Switch", msg, nil)
+			t.Fatal(msg)
+		}
+	}
+}
+
+// openPrefix opens as many frames as verify, in order, and returns the plaintext, the number of frames and the unopened rest.
+func openPrefix(o *refctl.Opener, wire []byte) ([]byte, int, []byte) {
+	var plain []byte
+	n := 0
+	for len(wire) > 0 {
+		p, used, err := o.OpenFrame(wire)
+		if err != nil {
+			break
+		}
+		plain = append(plain, p...)
+		wire = wire[used:]
+		n++
+	}
+	return plain, n, wire
 }
